@@ -273,9 +273,9 @@ func (g *generator) generateFlow(file *file, f *flow, w io.Writer, addImports ma
 	if g.sourceMapped {
 		// Annotate with line directives after we're done generating code.
 		// Get the expression's End position and find the associated line.
-		endPos := g.fset.Position(f.End())
+		endPos := g.fset.PositionFor(f.End(), false)
 		// -1 because this is a line above the closing }().
-		fmt.Fprintf(w, "/*line %v:%d*/", filepath.Base(f.PosInfo.File), endPos.Line-1)
+		fmt.Fprintf(w, "/*line %v:%d*/", filepath.Base(endPos.Filename), endPos.Line-1)
 	}
 
 	if _, err := io.WriteString(w, "}()"); err != nil {
@@ -365,7 +365,10 @@ func (g *generator) printPredicateHash(p *predicate) string {
 }
 
 func (g *generator) posInfo(n ast.Node) *PosInfo {
-	pos := g.fset.Position(n.Pos())
+	// The position in the file itself: one adjusted by a //line directive of
+	// the source names another file and may have no column, so that neither
+	// the variable names nor the source map derived from it would be usable.
+	pos := g.fset.PositionFor(n.Pos(), false)
 	posInfo := &PosInfo{
 		File:   filepath.Join(g.pkg.Path(), filepath.Base(pos.Filename)),
 		Line:   pos.Line,
